@@ -139,7 +139,7 @@ def run_scopetype(P, rep, keys=None, rule="R-SCOPETYPE"):
 
 
 def run_build(P, rep, rule="R-SCOPETYPE"):
-    fns = [f for f in P.fns.values() if f.key == "<" + RB + "RuntimeBuilder>::build"]
+    fns = P.by_key("<" + RB + "RuntimeBuilder>::build")
     if len(fns) != 1:
         rep.anchor_missing(rule, "RuntimeBuilder::build")
         return
